@@ -118,3 +118,14 @@ def f16_f17_paths() -> None:
 
 
 f16_f17_paths()
+
+
+def f18_huge_values() -> None:
+    """F18 (C13.R8): values of more than 4300 decimal digits quoted in a diagnostic or printed.  Before the fix every line
+    below ended in InternalError (ValueError: Exceeds the limit (4300 digits) for integer string conversion)."""
+    for text in ("uint8 K = 10 ** 5000\n@sealed\n", "uint8[10 ** 5000 / 3] a\n@sealed\n", "uint8 a\n@extent 10 ** 5000 + 1\n", "uint8 a\n@print 10 ** 5000\n@sealed\n", "uint8 a\n@assert 10 ** 5000 / 0 == 1\n@sealed\n"):
+        r = read({"ns/A.1.0.dsdl": text})
+        print("F18", repr(text[:30]), "->", str(r)[:90])
+
+
+f18_huge_values()
